@@ -422,7 +422,13 @@ func Run(sc *uw.Scenario) *simkit.Outcome {
 		// policy rejections are distinguishable
 		if uerr != nil && strict && wasValid && reachable && complete && firstBad >= 0 && model.IsPolicy(classes[firstBad]) && onlyOKBefore(classes, firstBad) {
 			var ise *slug.IllegalSlugError
-			if !errors.As(uerr, &ise) {
+			// Two classes of the model are stricter than the policy: a name that climbs out
+			// and comes back by the destination's own name (../dst/x) lies inside dst and may
+			// be accepted, and an escape that exists only by way of another link is the open
+			// known finding of C04. After either, a later entry's plain error says nothing.
+			c := classes[firstBad]
+			lenient := c == model.ClLinkPhys || (c == model.ClNameEscape && simkit.Under(filepath.Join(filepath.Clean(dst), strings.TrimPrefix(dec[firstBad].Name, "/")), filepath.Clean(dst)) && filepath.Join(filepath.Clean(dst), strings.TrimPrefix(dec[firstBad].Name, "/")) != filepath.Clean(dst))
+			if !errors.As(uerr, &ise) && !lenient {
 				out.Violate("C12", "policy-error-kind", classes[firstBad], fmt.Sprintf("archive %d: entry %d (%q, %s) rejected with a non-illegal-slug error: %v", ai, firstBad, dec[firstBad].Name, classes[firstBad], uerr))
 			}
 		}
@@ -435,7 +441,7 @@ func Run(sc *uw.Scenario) *simkit.Outcome {
 				if classes[i] == model.ClSkip || classes[i] == model.ClRoot || classes[i] == model.ClNameEscape || classes[i] == model.ClNameDotDot {
 					continue
 				}
-				last[strings.Join(simkit.Segs(e.Name), "/")] = i
+				last[strings.TrimPrefix(filepath.Clean("/"+strings.Join(simkit.Segs(e.Name), "/")), "/")] = i
 			}
 			for pth, i := range last {
 				e := dec[i]
@@ -443,7 +449,7 @@ func Run(sc *uw.Scenario) *simkit.Outcome {
 					continue
 				}
 				// skip when a later entry lies below this path (then it cannot be a link any more without that entry failing)
-				n, ok := tree[strings.TrimPrefix(strings.ReplaceAll("/"+pth, "/./", "/"), "/")]
+				n, ok := tree[strings.TrimPrefix(filepath.Clean("/"+pth), "/")]
 				if !ok || n.Kind != 'l' || n.Target != e.Link {
 					out.Violate("C12", "unpack-link-not-materialised", "link", fmt.Sprintf("archive %d: Unpack returned nil but link entry %d (%s -> %q), the last entry for its path, is not what is at that path now", ai, i, e.Name, e.Link))
 				}
